@@ -301,9 +301,10 @@ func plusDecode(s string) string { return rfc3986.Decode(strings.ReplaceAll(s, "
 
 func check(c Case) evid.Outcome {
 	o := check0(c)
-	if o.Violation != "" && c.Mode == "recsep" && strings.Contains(o.Violation, "partial") {
-		// what is left of K-mangle: static text of the same class in front of a recursive call is not looked at again,
-		// so a partial character reference or percent escape at its end goes unnoticed
+	if o.Violation != "" && c.Mode == "recsep" && strings.Contains(o.Violation, "partial") && strings.HasSuffix(string(c.Prefix2), "&") {
+		// what is left of K-mangle after F-openprefix: a bare "&" at the end of the static text in front of a call is
+		// not looked at again (query strings are written like that: TestEscapeSet), so the character reference that
+		// the datum completes goes unnoticed
 		o.Finding = "K-mangle"
 	}
 	if o.Violation != "" && o.Finding == "" {
@@ -527,7 +528,7 @@ func gen(t *rapid.T) Case {
 		if c.Mode == "recsep" && c.Prefix == "" {
 			c.Prefix = "/x/" // (a datum at the very start of the value followed by static text is C02's K-adjacent)
 		}
-		c.Prefix2 = evid.BStr(rapid.SampledFrom([]string{"/p?x=", "/p/", "javascript:", "java", "/q#", "https://h/", "//evil.test/", "?", "x", "#", "/", "&amp;", "script:", "%"}).Draw(t, "prefix2"))
+		c.Prefix2 = evid.BStr(rapid.SampledFrom([]string{"/p?x=", "/p/", "javascript:", "java", "/q#", "https://h/", "//evil.test/", "?", "x", "#", "/", "&amp;", "script:", "%", "&", "&#", "&#x2", "&am", "%2", "?a=1&"}).Draw(t, "prefix2"))
 	}
 	return c
 }
